@@ -181,19 +181,23 @@ def meanOk (h : Hdr) (bs shift : Nat) (buf1 : List Int) : Bool :=
     fits32 m && fits32 (if h.version ≥ 2 then m <<< shift else m) && decide (shift < 32)
   else true
 
+/-- `cbuffer[:nwrap] = cbuffer[blocksize : blocksize + nwrap]` -/
+def wrapBuf (nw bs : Nat) (buf1 : List Int) : List Int := setSlice buf1 0 (slice buf1 bs (bs + nw))
+
+/-- `fix_bitshift(cbuffer[nwrap:], blocksize, bitshift, ftype)` -/
+def fixBuf (h : Hdr) (shift bs : Nat) (buf2 : List Int) : List Int :=
+  let nw := h.nwrap
+  if h.ftype = TYPE_AU1 ∨ h.ftype = TYPE_AU2 then
+    setSlice buf2 nw ((slice buf2 nw (nw + bs)).map (fixSample h.ftype shift))
+  else if shift ≠ 0 then buf2.take nw ++ (buf2.drop nw).map (fun (v : Int) => v <<< shift)
+  else buf2
+
 /-- wrap, `fix_bitshift`, store, and (after the last channel) interleave into the output -/
 def finishBlock (h : Hdr) (convert : Bool) (st : St) (off : List Int) (buf1 : List Int) : St :=
   let nw := h.nwrap
   let bs := st.bs
   let off1 := meanUpdate h bs st.shift off buf1
-  -- cbuffer[:nwrap] = cbuffer[blocksize : blocksize + nwrap]
-  let buf2 := setSlice buf1 0 (slice buf1 bs (bs + nw))
-  -- fix_bitshift(cbuffer[nwrap:], blocksize, bitshift, ftype)
-  let blk := slice buf2 nw (nw + bs)
-  let buf3 :=
-    if h.ftype = TYPE_AU1 ∨ h.ftype = TYPE_AU2 then setSlice buf2 nw (blk.map (fixSample h.ftype st.shift))
-    else if st.shift ≠ 0 then buf2.take nw ++ (buf2.drop nw).map (fun (v : Int) => v <<< st.shift)
-    else buf2
+  let buf3 := fixBuf h st.shift bs (wrapBuf nw bs buf1)
   let chans := st.chans.set st.chan ⟨buf3, off1⟩
   if st.chan + 1 = h.nchan then
     let rows := chans.map (fun c => slice c.buf nw (nw + bs))
